@@ -24,6 +24,10 @@ package main
 //                      outside wrapCode
 //   hostOnly    for every function with an unlocked write: top-level directories of the
 //               repository that mention it (none besides cmd/… means host-configuration API)
+//   haltWrites  package vm: every write of a machine's `halt` field and every place its address goes
+//               (c09WideTables)
+//   libVars     package-level variables of the root package and of the modules/* packages it imports
+//               (the standard library DefaultGlobals builds), with the functions that write them
 
 import (
 	"fmt"
@@ -1178,6 +1182,7 @@ func c09Generate(repo string) string {
 		}
 		sort.Slice(stateVars, func(i, j int) bool { return vars[stateVars[i]].name < vars[stateVars[j]].name })
 		b.WriteString(c09RegistryTables(scope, stateVars))
+		b.WriteString(c09WideTables(repo, scope))
 	}
 	b.WriteString("end Risor.Generated.C09\n")
 	return b.String()
@@ -2165,6 +2170,357 @@ func c09RegistryTables(scope []*c09Pkg, stateVars []*types.Var) string {
 			sep = ""
 		}
 		fmt.Fprintf(&b, "  (%s, %s)%s\n", q(m.fn), q(m.src), sep)
+	}
+	b.WriteString("]\n\n")
+	return b.String()
+}
+
+// ---------------------------------------------------------------------------------------
+// 7. The halt flag of a machine, and the package-level state of the root package and of the
+//    standard-library module packages.
+//
+// haltWrites   (function, how, what) for package vm: `x.halt = v` / `x.halt++` (how = assign), a call
+//              that receives `&x.halt` (how = the callee when it is a sync/atomic store / swap / add,
+//              `escapes:<callee>` otherwise; atomic loads are reads and are skipped), `&x.halt` anywhere
+//              else (escapes:address-taken).  Inside a function literal the `how` is prefixed with
+//              `go-literal:` (the literal is the operand of a go statement) or `literal:`.
+// libVars      syntactic (go/parser only: the module packages import third-party code that is not
+//              available offline): every non-blank package-level variable of the root package and of
+//              each package below modules/ that a non-test file of the root package imports, with its
+//              declared type (or the type of its initialiser) and the functions of its package in which
+//              it is assigned, indexed-assigned, incremented, deleted from, cleared or has its address
+//              taken (by name; shadowing is ignored, which can only add writers).
+
+func c09WideTables(repo string, scope []*c09Pkg) string {
+	q := func(s string) string { return fmt.Sprintf("%q", s) }
+	var vmPkg *c09Pkg
+	for _, p := range scope {
+		if c09ShortPkg(p.pkg) == "vm" {
+			vmPkg = p
+		}
+	}
+	if vmPkg == nil {
+		panic("C09: package vm must be in scope")
+	}
+	type hw struct{ fn, how, what string }
+	hwSet := map[hw]bool{}
+	isHalt := func(e ast.Expr) bool {
+		for {
+			if pe, ok := e.(*ast.ParenExpr); ok {
+				e = pe.X
+				continue
+			}
+			break
+		}
+		se, ok := e.(*ast.SelectorExpr)
+		if !ok || se.Sel.Name != "halt" {
+			return false
+		}
+		sel := vmPkg.info.Selections[se]
+		if sel == nil || sel.Kind() != types.FieldVal {
+			return false
+		}
+		n := c09NamedStruct(sel.Recv())
+		return n != nil && n.Obj().Name() == "VirtualMachine"
+	}
+	for _, f := range vmPkg.files {
+		for _, d := range f.Decls {
+			fd, ok := d.(*ast.FuncDecl)
+			if !ok || fd.Body == nil {
+				continue
+			}
+			fo, _ := vmPkg.info.Defs[fd.Name].(*types.Func)
+			if fo == nil {
+				continue
+			}
+			fn := c09FuncName(fo)
+			goLits := map[*ast.FuncLit]bool{}
+			ast.Inspect(fd.Body, func(n ast.Node) bool {
+				if gs, ok := n.(*ast.GoStmt); ok {
+					if fl, ok := gs.Call.Fun.(*ast.FuncLit); ok {
+						goLits[fl] = true
+					}
+				}
+				return true
+			})
+			handled := map[*ast.UnaryExpr]bool{}
+			var walk func(n ast.Node, prefix string)
+			walk = func(n ast.Node, prefix string) {
+				ast.Inspect(n, func(m ast.Node) bool {
+					switch x := m.(type) {
+					case *ast.FuncLit:
+						if m == n {
+							return true
+						}
+						pf := "literal:"
+						if goLits[x] {
+							pf = "go-literal:"
+						}
+						walk(x.Body, pf)
+						return false
+					case *ast.AssignStmt:
+						for i, lhs := range x.Lhs {
+							if isHalt(lhs) {
+								what := "?"
+								if len(x.Rhs) == len(x.Lhs) {
+									what = types.ExprString(x.Rhs[i])
+								}
+								hwSet[hw{fn, prefix + "assign", what}] = true
+							}
+						}
+					case *ast.IncDecStmt:
+						if isHalt(x.X) {
+							hwSet[hw{fn, prefix + "assign", x.Tok.String()}] = true
+						}
+					case *ast.CallExpr:
+						for i, a := range x.Args {
+							u, ok := a.(*ast.UnaryExpr)
+							if !ok || u.Op != token.AND || !isHalt(u.X) {
+								continue
+							}
+							handled[u] = true
+							callee := types.ExprString(x.Fun)
+							atomicPkg := false
+							if se, ok := x.Fun.(*ast.SelectorExpr); ok {
+								if id, ok := se.X.(*ast.Ident); ok {
+									if pn, ok := vmPkg.info.Uses[id].(*types.PkgName); ok && pn.Imported().Path() == "sync/atomic" {
+										atomicPkg = true
+									}
+								}
+							}
+							switch {
+							case atomicPkg && strings.HasPrefix(callee, "atomic.Load"):
+								// a read
+							case atomicPkg && i == 0:
+								what := "?"
+								if len(x.Args) >= 2 {
+									what = types.ExprString(x.Args[len(x.Args)-1])
+								}
+								hwSet[hw{fn, prefix + callee, what}] = true
+							default:
+								hwSet[hw{fn, prefix + "escapes:" + callee, types.ExprString(a)}] = true
+							}
+						}
+					case *ast.UnaryExpr:
+						if x.Op == token.AND && isHalt(x.X) && !handled[x] {
+							hwSet[hw{fn, prefix + "escapes:address-taken", types.ExprString(x)}] = true
+						}
+					}
+					return true
+				})
+			}
+			walk(fd.Body, "")
+		}
+	}
+	var hws []hw
+	for h := range hwSet {
+		hws = append(hws, h)
+	}
+	sort.Slice(hws, func(i, j int) bool {
+		if hws[i].fn != hws[j].fn {
+			return hws[i].fn < hws[j].fn
+		}
+		if hws[i].how != hws[j].how {
+			return hws[i].how < hws[j].how
+		}
+		return hws[i].what < hws[j].what
+	})
+	var b strings.Builder
+	b.WriteString("/-- package vm: every write of a machine's `halt` flag and every place its address goes: (function, how, what) -/\n")
+	b.WriteString("def haltWrites : List (String × String × String) := [\n")
+	for i, h := range hws {
+		sep := ","
+		if i == len(hws)-1 {
+			sep = ""
+		}
+		fmt.Fprintf(&b, "  (%s, %s, %s)%s\n", q(h.fn), q(h.how), q(h.what), sep)
+	}
+	b.WriteString("]\n\n")
+
+	// libVars
+	ctx := build.Default
+	ctx.CgoEnabled = false
+	fset := token.NewFileSet()
+	parseDir := func(dir string) []*ast.File {
+		ents, err := os.ReadDir(dir)
+		if err != nil {
+			panic(fmt.Sprintf("C09: libVars: %v", err))
+		}
+		var files []*ast.File
+		for _, e := range ents {
+			n := e.Name()
+			if e.IsDir() || !strings.HasSuffix(n, ".go") || strings.HasSuffix(n, "_test.go") {
+				continue
+			}
+			if ok, _ := ctx.MatchFile(dir, n); !ok {
+				continue
+			}
+			f, err := parser.ParseFile(fset, filepath.Join(dir, n), nil, parser.SkipObjectResolution)
+			if err != nil {
+				panic(fmt.Sprintf("C09: libVars: %v", err))
+			}
+			files = append(files, f)
+		}
+		return files
+	}
+	rootFiles := parseDir(repo)
+	pkgDirs := map[string]bool{"": true}
+	for _, f := range rootFiles {
+		for _, im := range f.Imports {
+			path := strings.Trim(im.Path.Value, "\"")
+			if strings.HasPrefix(path, c09Mod+"/modules/") {
+				pkgDirs[strings.TrimPrefix(path, c09Mod+"/")] = true
+			}
+		}
+	}
+	var dirs []string
+	for d := range pkgDirs {
+		dirs = append(dirs, d)
+	}
+	sort.Strings(dirs)
+	type lv struct {
+		name, typ string
+		writers   []string
+	}
+	var lvs []lv
+	for _, d := range dirs {
+		files := rootFiles
+		label := "risor"
+		if d != "" {
+			files = parseDir(filepath.Join(repo, d))
+			label = d
+		}
+		vars := map[string]string{}
+		for _, f := range files {
+			for _, dc := range f.Decls {
+				gd, ok := dc.(*ast.GenDecl)
+				if !ok || gd.Tok != token.VAR {
+					continue
+				}
+				for _, sp := range gd.Specs {
+					vs := sp.(*ast.ValueSpec)
+					for i, id := range vs.Names {
+						if id.Name == "_" {
+							continue
+						}
+						typ := "?"
+						switch {
+						case vs.Type != nil:
+							typ = types.ExprString(vs.Type)
+						case i < len(vs.Values):
+							switch v := vs.Values[i].(type) {
+							case *ast.CompositeLit:
+								typ = types.ExprString(v.Type)
+							case *ast.UnaryExpr:
+								if cl, ok := v.X.(*ast.CompositeLit); ok && v.Op == token.AND {
+									typ = "*" + types.ExprString(cl.Type)
+								} else {
+									typ = "expr"
+								}
+							case *ast.CallExpr:
+								typ = "call:" + types.ExprString(v.Fun)
+							case *ast.BasicLit:
+								typ = "literal:" + strings.ToLower(v.Kind.String())
+							default:
+								typ = "expr"
+							}
+						}
+						vars[id.Name] = typ
+					}
+				}
+			}
+		}
+		if len(vars) == 0 {
+			continue
+		}
+		writers := map[string]map[string]bool{}
+		rootName := func(e ast.Expr) string {
+			for {
+				switch x := e.(type) {
+				case *ast.Ident:
+					return x.Name
+				case *ast.ParenExpr:
+					e = x.X
+				case *ast.SelectorExpr:
+					e = x.X
+				case *ast.IndexExpr:
+					e = x.X
+				case *ast.StarExpr:
+					e = x.X
+				default:
+					return ""
+				}
+			}
+		}
+		for _, f := range files {
+			for _, dc := range f.Decls {
+				fd, ok := dc.(*ast.FuncDecl)
+				if !ok || fd.Body == nil {
+					continue
+				}
+				fn := label + "." + fd.Name.Name
+				if fd.Recv != nil && len(fd.Recv.List) == 1 {
+					fn = label + "." + strings.TrimPrefix(types.ExprString(fd.Recv.List[0].Type), "*") + "." + fd.Name.Name
+				}
+				mark := func(e ast.Expr) {
+					if n := rootName(e); n != "" {
+						if _, ok := vars[n]; ok {
+							if writers[n] == nil {
+								writers[n] = map[string]bool{}
+							}
+							writers[n][fn] = true
+						}
+					}
+				}
+				ast.Inspect(fd.Body, func(n ast.Node) bool {
+					switch x := n.(type) {
+					case *ast.AssignStmt:
+						if x.Tok != token.DEFINE {
+							for _, lhs := range x.Lhs {
+								mark(lhs)
+							}
+						}
+					case *ast.IncDecStmt:
+						mark(x.X)
+					case *ast.UnaryExpr:
+						if x.Op == token.AND {
+							mark(x.X)
+						}
+					case *ast.CallExpr:
+						if id, ok := x.Fun.(*ast.Ident); ok && (id.Name == "delete" || id.Name == "clear") && len(x.Args) > 0 {
+							mark(x.Args[0])
+						}
+					}
+					return true
+				})
+			}
+		}
+		var names []string
+		for n := range vars {
+			names = append(names, n)
+		}
+		sort.Strings(names)
+		for _, n := range names {
+			var ws []string
+			for w := range writers[n] {
+				ws = append(ws, w)
+			}
+			sort.Strings(ws)
+			lvs = append(lvs, lv{label + "." + n, vars[n], ws})
+		}
+	}
+	b.WriteString("/-- package-level variables of the root package and of the modules/* packages it imports (the standard\n    library of DefaultGlobals): (name, type, functions that write it) -/\n")
+	b.WriteString("def libVars : List (String × String × List String) := [\n")
+	for i, v := range lvs {
+		sep := ","
+		if i == len(lvs)-1 {
+			sep = ""
+		}
+		var ws []string
+		for _, w := range v.writers {
+			ws = append(ws, q(w))
+		}
+		fmt.Fprintf(&b, "  (%s, %s, [%s])%s\n", q(v.name), q(v.typ), strings.Join(ws, ", "), sep)
 	}
 	b.WriteString("]\n\n")
 	return b.String()
